@@ -687,7 +687,7 @@ pub fn run_steps<S: Source, N: Nest>(cons: &mut Constructed<S>, steps: &[Step], 
             Step::Dec(body) => {
                 let cap = match x.reg.clone() {
                     Some(c) => c,
-                    None => panic!("script: no captured value"),
+                    None => { x.emit("Dnone".into()); continue }
                 };
                 x.emit("D(".into());
                 let r = cap.decode(|inner| run_steps::<_, N2>(inner, body, x));
@@ -699,7 +699,7 @@ pub fn run_steps<S: Source, N: Nest>(cons: &mut Constructed<S>, steps: &[Step], 
             Step::Decp(body) => {
                 let mut cap = match x.reg.take() {
                     Some(c) => c,
-                    None => panic!("script: no captured value"),
+                    None => { x.emit("Pnone".into()); continue }
                 };
                 let mark = x.trace.len();
                 x.emit("P(".into());
